@@ -180,6 +180,13 @@ func valuePaths(v ssa.Value) []string {
 				}
 				return []string{"builtin:" + b.Name()}
 			}
+			// dynamic call of a function value: a scope-like func(*DB) *DB returns, by contract,
+			// a handle derived from the one it is given
+			for _, a := range c.Args {
+				if a.Type().String() == "*gorm.io/gorm.DB" && v.Type().String() == "*gorm.io/gorm.DB" {
+					return one(a, ".dyn()")
+				}
+			}
 			return one(c.Value, "()")
 		case *ssa.BinOp:
 			return []string{"binop"}
